@@ -31,8 +31,14 @@ func (w *world) actViews(t *rapid.T) {
 // address index and the history database to be rebuilt from the stored blocks.
 func (w *world) actRebuild(t *rapid.T) {
 	n := w.pickNode(t, "node")
-	what := rapid.SampledFrom([]string{"addr_index", "history", "both"}).Draw(t, "what")
+	what := rapid.SampledFrom([]string{"addr_index", "history", "both", "history_bucket_emptied", "history_bucket_emptied"}).Draw(t, "what")
 	err := n.db.Update("verif erase markers", func(tx *dbutil.Tx) error {
+		if what == "history_bucket_emptied" {
+			// one of the history buckets is empty although the progress marker is present (a database written by a
+			// version that did not have that bucket yet): the node must notice and build the whole history again
+			bkt := rapid.SampledFrom([][]byte{historydb.AddressTxnsBkt, historydb.AddressUxBkt, historydb.UxOutsBkt, historydb.TransactionsBkt}).Draw(t, "bucket")
+			return dbutil.Reset(tx, bkt)
+		}
 		if what != "history" {
 			if err := dbutil.Delete(tx, blockdb.UnspentMetaBkt, []byte("addr_index_height")); err != nil {
 				return err
